@@ -562,7 +562,7 @@ def gen_consent(rng, i):
         # remaining stream must go on (the keepalive timer is agent-wide)
         ops += ["stream,0,1", "stream,1,1", "gather,0,2", "gather,1,2", "run,10", "creds,0,1,2", "creds,1,0,2", "cands,0,1,2,1", "cands,1,0,2,1"]
     if kind == "revoke":
-        when = "ready" if reliable else rng.choice(["early", "mid", "ready"])
+        when = "ready" if reliable else rng.choice(["early", "mid", "ready", "restarted"])
         who = rng.randrange(2); comp = rng.randrange(1, ncomp + 1)
         meta.update(who=who, comp=comp, when=when)
         sig = signalling(rng, ncomp)
@@ -570,6 +570,11 @@ def gen_consent(rng, i):
             ops += ["consent_lost,%d,1,%d" % (who, comp)] + sig
         elif when == "mid":
             ops += sig + ["run,%d" % rng.choice([30, 90, 300]), "consent_lost,%d,1,%d" % (who, comp)]
+        elif when == "restarted":
+            # both sides restart while READY and exchange the new credentials only: the old selected pair lives on with an empty check list
+            # (no check pair stands for it any more); the revocation must reach it all the same (seeded change C13-9)
+            ops += sig + ["run,%d" % rng.choice([4000, 9000, 21000]), "restart,0", "restart,1", "creds,0,1,1", "creds,1,0,1", "run,%d" % rng.choice([50, 300, 2000]),
+                          "consent_lost,%d,1,%d" % (who, comp)]
         else:
             ops += sig + ["run,%d" % rng.choice([4000, 9000, 21000]), "consent_lost,%d,1,%d" % (who, comp)]
         for _ in range(rng.choice([6, 20])):
